@@ -28,14 +28,16 @@ LEVEL = "other"
 EXPLANATION = (
     "Adaptor allow-list and join/ordering rules over archiver.rs and blob/packer.rs decided on resolved callees: the data "
     "path from the source walk to the tree archiver is order preserving, workers are joined (status received) before a "
-    "command reports success, and the writer pipeline indexes every pack it wrote. Schedule independence and termination "
-    "themselves are not decided.")
+    "command reports success, and the writer pipeline indexes every pack it wrote; a lock-order analysis shows that no lock is held while waiting (directly "
+    "or through a bounded channel) for a thread that needs a lock held further up the chain; end of input is never inferred from a short read. "
+    "Schedule independence and termination themselves are not decided.")
 NOT_DECIDED = ["equality of results over all interleavings (schedules)", "absence of deadlock / termination beyond an acyclic lock-order graph and the C13.e/f conditions (channel rendezvous cycles without locks, rayon pool starvation in general)", "that no blob is left unreferenced by the index under every interleaving"]
 
 # every adaptor of std's sequential Iterator (and itertools) yields its items in an order that is a function of the
 # input order only - never of thread scheduling; the parallel stages allowed are pariter's order-preserving ones
 TECHNIQUE = ("static analysis over rustc MIR and the resolved call graph: allow-list of order-preserving adaptors on the archive pipeline, "
-             "must-pass-through join/flush ordering, call-graph reachability of rayon waits from loops that drain rendezvous streams, channel kind of the tree streamer's queue")
+             "must-pass-through join/flush ordering, call-graph reachability of rayon waits from loops that drain rendezvous streams, channel kind of the tree streamer's queue, "
+             "lock-order (wait-for) graph built from MIR lock-guard live ranges x call-graph effects (locks acquired, bounded-channel sends and their receiving side) checked for cycles")
 
 ORDERED = re.compile(r"^std::iter::Iterator::\w+$|^itertools::Itertools::\w+$|^<.* as std::iter::Iterator>::\w+$|^std::iter::(once|empty|repeat|from_fn|successors|zip)$"
                      r"|^pariter::(IteratorExt|readahead::ReadaheadIteratorExt|parallel_map::ParallelMapIteratorExt)?.*::(parallel_map_scoped|readahead_scoped|parallel_map|readahead|parallel_filter_scoped)$"
